@@ -24,6 +24,12 @@ def base_streams(rnd, n):
     for first in (b"HTTP/1.1 100 Continue\r\n\r\n", b"HTTP/1.1 102 Processing\r\n\r\n", b"HTTP/1.1 103 Early Hints\r\nLink: </s.css>; rel=preload\r\n\r\n",
                   b"HTTP/1.1 200 OK\r\nContent-Length: 2\r\n\r\nok", b"HTTP/1.1 404 Not Found\r\nContent-Length: 0\r\n\r\n"):
         out.append(("not101-first", first, scen.HANDSHAKE + E(1, b"behind the second reply") + E(9, b"p"), {}, len(first)))
+    # always present: a reply whose header block contains bare line feeds (LF LF inside a header value, LF-only line ends) ahead
+    # of its CRLF CRLF terminator, and payloads that contain CRLF CRLF themselves: where the header block ends does not depend
+    # on what else is in the read
+    for note in (b"X-Note: one\n\ntwo\r\n", b"X-Note: a\nX-Other: b\n\r\n", b"X-Note: \n\n\r\n"):
+        hs = scen.HANDSHAKE[:-2] + note + b"\r\n"
+        out.append(("bare-lf-in-header", hs, E(1, b"line one\r\n\r\nline three") + E(9, b"p\n\n") + E(2, b"\r\n\r\n"), {}, len(hs)))
     for i in range(n):
         kind = rnd.choice(["valid", "valid", "invalid", "appclose", "appsend", "bighdr", "closemid"])
         hs = scen.HANDSHAKE
